@@ -3,4 +3,5 @@ Require Extraction.
 Require Import ExtrOcamlBasic.
 From LLB Require Import Base.Bytes Codec.Codec Codec.FileObs BSys.Sig BSys.RulesBS.
 Extraction "extracted/Model_bsys.ml" clean cat_fn lookup_val lookup_rule rule_valid cmd_valid file_valid
-  node_virtual stat_w content_w put del fresh vtag default_fuel dec_value.
+  node_virtual stat_w content_w put del fresh vtag default_fuel dec_value
+  find_cmd node_def sig_tokens ext_sig_tokens symlink_sig_tokens node_sig_tokens.
